@@ -9,6 +9,7 @@ import (
 	"strconv"
 	"strings"
 	"testing"
+	"time"
 
 	"github.com/uhn/ggql/pkg/ggql"
 	"pgregory.net/rapid"
@@ -90,7 +91,7 @@ func genCaseC07(t *rapid.T) *c07Case {
 		if len(sites) > 0 {
 			for i := 0; i < rapid.IntRange(1, 3).Draw(t, "nFaults"); i++ {
 				n, f := parseSite(rapid.SampledFrom(sites).Draw(t, fmt.Sprintf("fs%d", i)))
-				fl := hx.Fault{Node: n, Field: f, Kind: rapid.SampledFrom([]string{"err", "group", "ext", "lext", "wgroup"}).Draw(t, fmt.Sprintf("fk%d", i))}
+				fl := hx.Fault{Node: n, Field: f, Kind: rapid.SampledFrom([]string{"err", "group", "ext", "lext", "wgroup", "oext"}).Draw(t, fmt.Sprintf("fk%d", i))}
 				if fl.Kind == "group" || fl.Kind == "wgroup" {
 					fl.N = 2
 				}
@@ -458,8 +459,11 @@ func f32(x interface{}) interface{} {
 			out[k] = f32(e)
 		}
 		return out
+	case nil, string, bool, int, int8, int16, int32, int64, uint, uint8, uint16, uint32, uint64, float64, time.Time, ggql.Symbol, ggql.Var:
+		return x
 	}
-	return x
+	// a value of some other Go type (in an error's extensions, say) is written as the text it prints as
+	return fmt.Sprint(x)
 }
 
 func jsonChecks(res map[string]interface{}) (msgs []string) {
